@@ -2069,6 +2069,10 @@ class WebDAVApp:
         path_info = request.match_info["path_info"]
         if not path_info.startswith("/"):
             path_info = "/" + path_info
+        # Normalise before the path is used for anything: lookup normalises
+        # internally, but creation (MKCOL, MKCALENDAR) and the container/name
+        # split (PUT, DELETE) use this value as is.
+        path_info = posixpath.normpath(path_info)
         r = self.backend.get_resource(path_info)
         return (request.path, path_info, r)
 
